@@ -23,6 +23,8 @@ import (
 	"runtime/debug"
 	"sort"
 	"strings"
+	"sync"
+	"sync/atomic"
 	"testing"
 	"testing/synctest"
 	"time"
@@ -66,6 +68,9 @@ type TRow struct {
 //	alter   UpdateRetentionPolicy of policy RP (DurH / SgdH / IgdH, nil = unchanged)
 //	read    query every shard the catalogue lists (loads not-yet-loaded shards, as a query does)
 //	restart stop the store (Mode "clean": close; "crash": process kill), stay down for Down ns, start it on a copy of the directory
+//	whold   write one point (Rows[0]) and hold the write inside the shard (at its WAL write, the shard
+//	        lock taken) across the next service run: released right after that run, or - when the
+//	        run deletes that very shard - at the moment the service asks the engine to delete it
 //	addnode a second data node joins the cluster (CreateDataNode); with Expand the catalogue adds
 //	        shards and indexes for the new node's partitions to every existing group (ExpandGroups)
 //	kill    arm a process kill inside the next service run that gets that far: Mode "mark" = right
@@ -193,12 +198,11 @@ func (worldT) Gen(r *core.Rand, env *core.Env) TCase {
 		}
 		p.IgdH = core.Pick(r, []int{0, 0, p.SgdH, 2 * p.SgdH, 3})
 		if flavour == 1 && i == 0 {
-			p.SgdH = core.Pick(r, []int{1, 1, 2})
-			p.DurH = core.Pick(r, []int{p.SgdH, p.SgdH + 1, 2, 3})
-			if p.DurH < p.SgdH {
-				p.DurH = p.SgdH
-			}
-			p.IgdH = core.Pick(r, []int{0, p.SgdH, 2 * p.SgdH, 3, 4})
+			// index groups wider than shard groups: an index group then has room for
+			// shard groups that do not exist yet when the group duration changes
+			p.SgdH = 1
+			p.DurH = core.Pick(r, []int{1, 2, 2, 3})
+			p.IgdH = core.Pick(r, []int{2, 2, 3, 4})
 		}
 		c.RPs = append(c.RPs, p)
 	}
@@ -230,9 +234,15 @@ func (worldT) Gen(r *core.Rand, env *core.Env) TCase {
 	regrouped := false
 	for len(c.Ops) < nops && t < horizon {
 		rp := r.Intn(nrp)
-		kind := r.Weighted([]int{40, 18, 8, 8, 6})
-		if flavour == 1 && !regrouped && len(c.Ops) >= 1 && r.Bool(0.5) {
-			kind, rp = 5, 0
+		kind := r.Weighted([]int{40, 18, 8, 8, 6, 0, 0, 7})
+		if flavour == 1 {
+			if len(c.Ops) == 0 {
+				kind, rp = 0, 0
+			} else if !regrouped && r.Bool(0.6) {
+				kind, rp = 5, 0
+			} else if regrouped && r.Bool(0.5) {
+				kind, rp = 0, 0
+			}
 		}
 		if flavour == 2 && !nodeAdded && len(c.Ops) >= 1 && r.Bool(0.4) {
 			kind = 6
@@ -245,7 +255,11 @@ func (worldT) Gen(r *core.Rand, env *core.Env) TCase {
 			for j := 0; j < n; j++ {
 				var ts int64
 				d := dur[rp]
-				switch r.Weighted([]int{30, 25, 20, 25}) {
+				wts := []int{30, 25, 20, 25}
+				if flavour == 1 && rp == 0 {
+					wts = []int{10, 25, 10, 55}
+				}
+				switch r.Weighted(wts) {
 				case 0: // around the window edge now - duration
 					if d == 0 {
 						ts = t - r.Int63n(6*twHour)
@@ -339,6 +353,31 @@ func (worldT) Gen(r *core.Rand, env *core.Env) TCase {
 		case 6:
 			nodeAdded = true
 			c.Ops = append(c.Ops, TOp{K: "addnode", At: t})
+		case 7: // a write kept in flight across the next service run
+			if at := nextTickAfter(t) - core.Pick(r, []int64{twSec, 2 * twSec, 5 * twSec}); at > t {
+				t = at
+			}
+			wid++
+			d := dur[rp]
+			var ts int64
+			nh := (t/twHour + 1) * twHour
+			switch {
+			case d != 0 && r.Bool(0.5) && nh-5*twSec > t-6*twSec:
+				// just before a full hour, the oldest point still accepted: its shard ends
+				// exactly duration ago at that hour and expires at the first run after it
+				if at := nh - core.Pick(r, []int64{twSec, 2 * twSec, 4 * twSec}); at > t {
+					t = at
+				}
+				ts = t - d + core.Pick(r, []int64{0, twSec})
+			case d != 0 && r.Bool(0.5):
+				// the oldest point the coordinator still accepts: its shard is the next to expire
+				ts = t - d + core.Pick(r, []int64{0, 1, twSec, twMin})
+			case r.Bool(0.5):
+				ts = t - r.Int63n(10*twMin)
+			default:
+				ts = t + r.Int63n(2*twHour)
+			}
+			c.Ops = append(c.Ops, TOp{K: "whold", At: t, RP: rp, ID: wid, Rows: []TRow{{S: r.Intn(4), T: ts}}})
 		}
 		// next instant: plain steps, or aimed just before / just after the next service run
 		switch r.Weighted([]int{30, 25, 25, 20}) {
@@ -523,12 +562,14 @@ func (worldT) Neutralise(c TCase, name string) (TCase, bool) {
 var (
 	twT        *testing.T
 	twPrevKeys []string
+	twFS       *simfs.FS
 )
 
 func TestVerifWorldT(t *testing.T) {
 	twT = t
 	engine.TwSetup()
 	meta.DataLogger = zap.NewNop() // the meta service sets it at start-up
+	twFS = simfs.Install()
 	core.RunWorker[TCase](worldT{})
 }
 
@@ -561,6 +602,72 @@ type twRun struct {
 	inTick     bool
 	nodes      int
 	pendingKil *TOp
+	disk       *simfs.Disk
+	hold       atomic.Pointer[twHold]
+}
+
+// twHold is a write kept in flight inside a shard.
+type twHold struct {
+	shard   uint64
+	frag    string // fragment of the shard's WAL path
+	series  int
+	ts      int64
+	val     int64
+	release chan struct{}
+	done    chan struct{}
+	err     error
+	mu      sync.Mutex
+	caught  bool
+	relOnce sync.Once
+	byDel   bool // released because the service asked the engine to delete something
+}
+
+func (h *twHold) open(byDelete bool) {
+	h.relOnce.Do(func() {
+		h.mu.Lock()
+		h.byDel = byDelete
+		h.mu.Unlock()
+		close(h.release)
+	})
+}
+
+// gate is consulted by the simulated disk before every mutation.
+func (r *twRun) gate(d *simfs.Disk, e *simfs.Entry) {
+	h := r.hold.Load()
+	if h == nil || e.Kind != simfs.KWrite || !strings.HasPrefix(e.Path, "wal/") || !strings.Contains(e.Path, h.frag) {
+		return
+	}
+	h.mu.Lock()
+	if h.caught {
+		h.mu.Unlock()
+		return
+	}
+	h.caught = true
+	h.mu.Unlock()
+	<-h.release
+}
+
+// finishHold lets the held write go on, waits for it and books it.
+func (r *twRun) finishHold(ack bool) {
+	h := r.hold.Load()
+	if h == nil {
+		return
+	}
+	h.open(false)
+	<-h.done
+	r.hold.Store(nil)
+	h.mu.Lock()
+	byDel := h.byDel
+	h.mu.Unlock()
+	if byDel {
+		r.out.Probes["held write released because the service asked the engine to delete a shard or index"]++
+	}
+	r.m.bookHeld(h, ack && h.err == nil)
+	if ack {
+		r.lastWrite = time.Now()
+		r.indexDirty = true
+	}
+
 }
 
 func (r *twRun) rel(t time.Time) int64 { return int64(t.Sub(r.epoch)) }
@@ -669,6 +776,7 @@ func (r *twRun) bubble() {
 		r.sleepUntil(r.abs(r.c.EndAt))
 	}
 	if !r.stop {
+		r.finishHold(true)
 		r.readAll("end")
 	}
 	r.stopStore("final")
@@ -723,6 +831,8 @@ func (r *twRun) startStore() {
 		r.root = filepath.Join(r.env.Scratch, fmt.Sprintf("inc%d", r.inc))
 		twMust(os.MkdirAll(r.root, 0o755), "mkdir")
 	}
+	r.disk = twFS.NewDisk(r.root)
+	r.disk.SetGate(r.gate)
 	th := time.Duration(r.c.ThermalH) * time.Hour
 	opts := engine.TwEngineOptions(r.c.Lazy, th, th)
 	lc := &metaclient.LoadCtx{LoadCh: make(chan *metaclient.DBPTCtx)}
@@ -744,7 +854,11 @@ func (r *twRun) startStore() {
 		}
 	}
 	r.svc = retention.NewService(time.Duration(r.c.IntervalS) * time.Second)
-	r.svc.Engine = &twEngine{EngineImpl: r.ei, mc: r.mc, desc: r.c.Desc}
+	r.svc.Engine = &twEngine{EngineImpl: r.ei, mc: r.mc, desc: r.c.Desc, onDelete: func(string, uint64) {
+		if h := r.hold.Load(); h != nil {
+			h.open(true)
+		}
+	}}
 	r.svc.MetaClient = r.mc
 	twMust(r.svc.Open(), "service open")
 	r.svcStart = time.Now()
@@ -765,13 +879,16 @@ func (r *twRun) stopStore(mode string) {
 	if !r.up {
 		return
 	}
-	r.up = false
 	next := ""
 	if mode == "crash" {
 		next = filepath.Join(r.env.Scratch, fmt.Sprintf("inc%d", r.inc+1))
 		twMust(simfs.CopyTree(r.root, next), "copy tree")
 		twMust(simfs.RelocateTxn(next, r.env.Scratch, next), "relocate txn")
+		r.finishHold(false) // the process died with the write in flight: never acknowledged
+	} else {
+		r.finishHold(true)
 	}
+	r.up = false
 	if r.svc != nil {
 		_ = r.svc.Close()
 		r.svc = nil
@@ -787,6 +904,10 @@ func (r *twRun) stopStore(mode string) {
 		next = filepath.Join(r.env.Scratch, fmt.Sprintf("inc%d", r.inc+1))
 		twMust(simfs.CopyTree(r.root, next), "copy tree")
 		twMust(simfs.RelocateTxn(next, r.env.Scratch, next), "relocate txn")
+	}
+	if r.disk != nil {
+		twFS.Forget(r.disk)
+		r.disk = nil
 	}
 	_ = os.RemoveAll(r.root)
 	r.root = next
@@ -864,14 +985,29 @@ func (r *twRun) afterTick(nt time.Time) {
 	}
 	sortU := func(x []uint64) []uint64 { sort.Slice(x, func(i, j int) bool { return x[i] < x[j] }); return x }
 	r.out.Log("tick at=%s marks=%v engdel=%v prunes=%v idxdel=%v kill=%q", twFmtRel(r.rel(nt)), twUniq(sortU(marks)), sortU(dels), sortU(prunes), sortU(idels), fired)
-	if len(delErrs) > 0 {
-		sort.Strings(delErrs)
-		r.out.Stats["engine_delete_errors"] += int64(len(delErrs))
+	for _, e := range delErrs {
+		if e == "shard not found" {
+			r.out.Stats["engine_delete_of_unknown_shard"]++ // shards the engine never created: expected
+		} else {
+			r.out.Stats["engine_delete_errors"]++
+			if len(e) > 120 {
+				e = e[:120]
+			}
+			r.out.Probes["DeleteShard failed: "+e]++
+		}
 	}
 	after := time.Now()
 	r.m.judgeTick(nt, after, fired)
 	if r.stop {
 		return
+	}
+	if r.hold.Load() != nil && fired == "" {
+		r.finishHold(true)
+		synctest.Wait()
+		r.m.judgeState("whold_end", false)
+		if r.stop {
+			return
+		}
 	}
 	if fired != "" {
 		// the process died inside this run
@@ -908,6 +1044,15 @@ func twUniq(x []uint64) []uint64 {
 
 func (r *twRun) step(i int, op TOp) {
 	switch op.K {
+	case "w", "whold", "read", "restart":
+		if r.hold.Load() != nil {
+			r.finishHold(true)
+			synctest.Wait()
+		}
+	}
+	switch op.K {
+	case "whold":
+		r.opWriteHeld(i, op)
 	case "w":
 		r.opWrite(i, op)
 	case "alter":
@@ -1098,6 +1243,67 @@ func (r *twRun) opWrite(i int, op TOp) {
 	r.out.Stats["writes"]++
 	r.out.Log("op%d w id=%d rp=%s at=%s rows=%d rejected=%d shards=%d errs=%d", i, op.ID, name, twFmtRel(r.rel(now)), len(op.Rows), rejected, len(order), nerr)
 	r.m.noteChange()
+}
+
+// opWriteHeld: one point, routed like any other, whose write is kept in flight.
+func (r *twRun) opWriteHeld(i int, op TOp) {
+	if op.RP < 0 || op.RP >= len(r.c.RPs) || !r.up || len(op.Rows) == 0 {
+		return
+	}
+	name := twRPName(op.RP)
+	now := time.Now()
+	row := op.Rows[0]
+	ts := r.epoch.UnixNano() + row.T
+	var dur time.Duration
+	r.cat.read(func(d *meta.Data) {
+		rpi, err := d.RetentionPolicy(twDB, name)
+		twMust(err, "RetentionPolicy")
+		dur = rpi.Duration
+	})
+	if dur != 0 && ts < now.Unix()*1e9-int64(dur) {
+		r.out.Stats["points_rejected_out_of_window"]++
+		r.out.Log("op%d whold id=%d rp=%s at=%s rejected", i, op.ID, name, twFmtRel(r.rel(now)))
+		return
+	}
+	err := r.cat.apply(func(d *meta.Data) error { return d.CreateShardGroup(twDB, name, time.Unix(0, ts), util.Hot, config.TSSTORE, 0) })
+	twMust(err, "CreateShardGroup")
+	pt := uint32(row.S % r.c.PTs)
+	var sid uint64
+	r.cat.read(func(d *meta.Data) {
+		sg, err := d.ShardGroupByTimestampAndEngineType(twDB, name, time.Unix(0, ts), config.TSSTORE)
+		if err != nil || sg == nil {
+			panic(core.InfraPanic(fmt.Sprintf("no shard group for a timestamp right after CreateShardGroup: %v", err)))
+		}
+		r.m.learnGroup(op.RP, sg)
+		for _, sh := range sg.Shards {
+			if len(sh.Owners) > 0 && sh.Owners[0] == pt {
+				sid = sh.ID
+			}
+		}
+	})
+	if sid == 0 {
+		panic(core.InfraPanic("no shard of the group is owned by the point's partition"))
+	}
+	h := &twHold{shard: sid, frag: fmt.Sprintf("/%s/%d_", name, sid), series: row.S, ts: ts, val: int64(op.ID) * 1000,
+		release: make(chan struct{}), done: make(chan struct{})}
+	r.hold.Store(h)
+	r.m.noteHeld(h)
+	rows := []influx.Row{twRow(row.S, ts, h.val)}
+	go func() {
+		defer close(h.done)
+		h.err = r.storeWrite(name, pt, sid, rows)
+	}()
+	synctest.Wait()
+	h.mu.Lock()
+	caught := h.caught
+	h.mu.Unlock()
+	r.out.Log("op%d whold id=%d rp=%s at=%s shard=%d held=%v", i, op.ID, name, twFmtRel(r.rel(now)), sid, caught)
+	r.out.Stats["writes_held"]++
+	r.m.noteChange()
+	if !caught {
+		// the write did not reach the WAL (it failed or finished at once): an ordinary write
+		r.finishHold(true)
+	}
 }
 
 // storeWrite = Storage.Write: the batch is received in wire form; a shard the
